@@ -246,13 +246,19 @@ func (m *multiSim) oneHeight() (ok bool) {
 		if m.rng.Intn(3) == 0 {
 			val = uint64(2 + m.rng.Intn(4))
 		}
-		if tx, e := fsm.NewChangeParamTxUint64(A.accKeys[m.rng.Intn(len(A.accKeys))], fsm.ParamSpaceVal, fsm.ParamUnstakingBlocks, val, 0, 1000000, 1, 1, 20000, h, ""); e == nil {
+		if tx, e := fsm.NewChangeParamTxUint64(A.accKeys[m.rng.Intn(len(A.accKeys))], fsm.ParamSpaceVal, fsm.ParamUnstakingBlocks, val, 1, 5000, 1, 1, 20000, h, ""); e == nil {
 			bz, _ := lib.Marshal(tx)
 			raws = append(raws, bz)
 			if os.Getenv("NODEX_DEBUG") != "" {
 				fmt.Fprintf(os.Stderr, "param tx at height %d value %d: mempool says %v\n", h, val, A.c.Mempool.HandleTransactions(bz))
 			}
-			b.Ops = append(b.Ops, Op{Op: "unstake", Who: 1 + m.rng.Intn(3)})
+			// an unstake of a validator that is still staked reads the parameter the refused change touched
+			for w := 1; w <= 3; w++ {
+				if v, e := A.c.FSM.GetValidator(A.valKeys[w].PublicKey().Address()); e == nil && v.UnstakingHeight == 0 {
+					b.Ops = append(b.Ops, Op{Op: "unstake", Who: w})
+					break
+				}
+			}
 		}
 	}
 	for _, o := range b.Ops {
